@@ -665,6 +665,18 @@ pub fn hook_read_side(op: IoOp, fd: i32, path: Option<&[u8]>, fail_errnos_ok: bo
     r
 }
 
+/// Is this descriptor one of the run's store files (opened through `hook_open` by a simulated
+/// thread, shadow not frozen)?
+pub fn is_store_fd(fd: i32) -> bool {
+    match tracked() {
+        Some((sim, _)) => {
+            let fs = lock(sim);
+            !fs.frozen && fs.fds.contains_key(&fd)
+        }
+        None => false,
+    }
+}
+
 /// A call that must never be applied to a store file (C14). It is executed, and recorded as
 /// a breach of the file discipline.
 pub fn hook_forbidden(what: &'static str, fd: i32, path: Option<&[u8]>, real: impl FnOnce() -> i64) -> i64 {
